@@ -16,7 +16,7 @@ use crate::props::c10::rank;
 use crate::runner::{CheckResult, Env, Job, Outcome, PropJob};
 use crate::util::{canon, permutation, rc, to_ascii, Seq};
 
-pub const RULE: &str = "case = read set in which reads and their reverse complements both occur, p-mer type P (2..8 bases), k in p+1..p+30 (bounded by the piece container), permutation in {default (None), generated permutation of the 4^p p-mers}, rc mode on/off, piece container in {Lmer1, Lmer2, Lmer3, DnaString, DnaBytes}; oracle: reads shorter than k give no pieces; pieces re-tile the read in order with k-1 overlaps and each piece is the exact substring; piece extensions are exactly the flanking bases (none at read ends); bucket < 4^p; the map (canonical k-mer in rc mode / k-mer otherwise) -> bucket over ALL occurrences in all pieces of all reads is a function; the bucket's p-mer (or its reverse complement) occurs inside every k-mer of the piece; msp_sequence, the deprecated simple_scan and Scanner::scan + MspIntervalP::bucket agree on intervals and bucket ids. Non-trivial = some k-mer occurs in >= 2 different pieces (in rc mode: in both orientations).";
+pub const RULE: &str = "case = read set in which reads and their reverse complements both occur, p-mer type P (2..8 bases), k in p+1..p+30 (bounded by the piece container), permutation in {default (None), generated permutation of the 4^p p-mers}, rc mode on/off, piece container in {Lmer1, Lmer2, Lmer3, DnaString, DnaBytes}; oracle: reads shorter than k give no pieces; pieces re-tile the read in order with k-1 overlaps and each piece is the exact substring; piece extensions are exactly the flanking bases (none at read ends); bucket < 4^p; the map (canonical k-mer in rc mode / k-mer otherwise) -> bucket over ALL occurrences in all pieces of all reads is a function; the bucket's p-mer (or its reverse complement) occurs inside every k-mer of the piece; msp_sequence, the deprecated simple_scan and Scanner::scan (asked twice) + MspIntervalP::bucket agree on intervals and bucket ids; msp_sequence repeated on a fresh thread after calls for other p-mer types gives the same pieces. Non-trivial = some k-mer occurs in >= 2 different pieces (in rc mode: in both orientations).";
 pub const TECHNIQUE: &str = "seeded proptest; functional-dependency check k-mer -> bucket over all occurrences, substring/flank equality against the plain read";
 
 #[derive(Debug, Clone, Serialize, Deserialize)]
@@ -121,6 +121,38 @@ fn check<P: Kmer>(c: &Case) -> CheckResult {
     for (ri, r) in reads.iter().enumerate() {
         let ps = pieces::<P>(k, &r.seq, table.as_deref(), c.rcmode, cname);
         let n = r.seq.len();
+        // a pure function: the same call on a fresh thread, after a call for another p-mer type and repeated,
+        // gives the same pieces (nothing may be carried over between calls)
+        if ri == 0 && ((table.is_none() && c.k_extra % 2 == 1) || c.k_extra % 8 == 1) {
+            let seq = &r.seq;
+            let tab = table.as_deref();
+            let rcmode = c.rcmode;
+            let res = std::thread::scope(|sc| {
+                sc.spawn(move || {
+                    let _ = msp_sequence::<crate::ktypes::Kmer2, DnaBytes>(k, seq, None, rcmode);
+                    let a = pieces::<P>(k, seq, tab, rcmode, cname);
+                    let _ = msp_sequence::<crate::ktypes::Kmer3, DnaBytes>(k.max(3), seq, None, !rcmode);
+                    let b = pieces::<P>(k, seq, tab, rcmode, cname);
+                    (a, b)
+                })
+                .join()
+            });
+            let key = |v: &[Piece]| -> Vec<(u32, u8, Seq)> { v.iter().map(|x| (x.bucket, x.exts, x.bytes.clone())).collect() };
+            match res {
+                Err(_) => return Err(format!("read {}: msp_sequence panicked on a fresh thread", ri)),
+                Ok((a, b)) => {
+                    if key(&a) != key(&ps) || key(&b) != key(&ps) {
+                        return Err(format!(
+                            "read {}: msp_sequence gives {} pieces here, {} / {} pieces on a fresh thread after calls for other p-mer types: the result depends on earlier calls",
+                            ri,
+                            ps.len(),
+                            a.len(),
+                            b.len()
+                        ));
+                    }
+                }
+            }
+        }
         if n < k {
             if !ps.is_empty() {
                 return Err(format!("read {} is shorter than k but produced {} pieces", ri, ps.len()));
@@ -152,7 +184,13 @@ fn check<P: Kmer>(c: &Case) -> CheckResult {
                 }
             };
             let dslice = DnaSlice(&r.seq);
-            let sc = Scanner::new(&dslice, score, k).scan();
+            let scanner = Scanner::new(&dslice, score, k);
+            let first_scan = scanner.scan();
+            // a two-pass user asks the same scanner again: same intervals
+            let sc = scanner.scan();
+            if first_scan.len() != sc.len() || first_scan.iter().zip(sc.iter()).any(|(a, b)| a.start != b.start || a.len != b.len || a.bucket() != b.bucket()) {
+                return Err(format!("read {}: a second scan() on the same Scanner gives different intervals ({} vs {})", ri, first_scan.len(), sc.len()));
+            }
             if ss.len() != ps.len() || sc.len() != ps.len() {
                 return Err(format!(
                     "read {}: msp_sequence gives {} pieces, simple_scan {} intervals, Scanner {} intervals",
